@@ -106,7 +106,7 @@ def rbAllowed (phase : Nat) : List String :=
   -- before the swap the source's location map depends on which RW replica served the controller's
   -- widening reads, so it is not observed
   if phase = 1 then ["w", "r", "full", "rbreload", "rbend", "punch"]
-  else ["w", "r", "full", "holes", "loc", "meta", "imeta", "apply", "lunmap", "rbpromote", "rbend", "cands", "punch", "cmp", "csnap"]
+  else ["w", "r", "full", "holes", "loc", "meta", "imeta", "apply", "lunmap", "rbpromote", "rbend", "cands", "punch", "cmp", "csnap", "killq"]
 
 partial def loop (h : IO.FS.Stream) (out : IO.FS.Stream) (r : Rep) : IO Unit := do
   let line ← h.getLine
@@ -121,8 +121,15 @@ partial def loop (h : IO.FS.Stream) (out : IO.FS.Stream) (r : Rep) : IO Unit := 
     match a.toNat?, b.toNat? with
     | some bs, some nb => out.putStrLn "ok"; loop h out (Rep.init bs nb)
     | _, _ => out.putStrLn "bad-op"; loop h out r
+  | ["killq", a, b, c] =>   -- a healthy replica dies; the write that follows is still acknowledged (2 of 3)
+    match a.toNat?, b.toNat?, c.toNat? with
+    | some off, some len, some tag =>
+      if r.rb ≠ 3 ∨ r.qDead ∨ !r.isOpen ∨ !r.inVolume off len then do out.putStrLn "inadmissible"; loop h out r else
+      let (r', o) := r.step (.write off len tag)
+      out.putStrLn (showOut o ++ " reps=2"); loop h out { r' with qDead := true }
+    | _, _, _ => out.putStrLn "bad-op"; loop h out r
   | ["csnap", n] =>   -- Controller.Snapshot while all three replicas are RW: a user snapshot on each
-    if r.rb ≠ 3 then do out.putStrLn "inadmissible"; loop h out r else
+    if r.rb ≠ 3 ∨ r.qDead then do out.putStrLn "inadmissible"; loop h out r else
     let (r', o) := r.step (.snap n true)
     out.putStrLn (showOut o); loop h out r'
   | ["full"] =>
